@@ -2135,3 +2135,71 @@ package decimal128
 //@ loop 1: decreases prec - i
 //@ cut before "buf = append(buf, e)": havoc buf: len(buf) >= 0
 //@ props C06 C07 C20
+
+// ---------------------------------------------------------------------------------------------
+// parseFormat (C07, C20): the format specification [flags][width][.precision]verb as an automaton
+// over the string. fst: 0 reading flags, 1 width digits, 2 just after '.', 3 precision digits,
+// 4 the verb has been read (accepting), 5 something follows the verb (reject). fwv / fpv are the
+// numbers spelled by the width and precision digits, the flag folds record which flags occurred
+// ('0' is ignored after '-', and '-' cancels an earlier '0').
+//@ fold fst
+//@ define DIG = (c >= 48 && c <= 57)
+//@ define FLAG = (c == 32 || c == 35 || c == 43 || c == 45 || c == 48)
+//@ init 0
+//@ step ite(acc == 0, ite(FLAG, 0, ite(c >= 49 && c <= 57, 1, ite(c == 46, 2, 4))),
+//@      ite(acc == 1, ite(DIG, 1, ite(c == 46, 2, 4)),
+//@      ite(acc == 2, ite(DIG, 3, 4),
+//@      ite(acc == 3, ite(DIG, 3, 4), 5))))
+//@ fold fwv
+//@ init 0
+//@ step ite((fst == 0 || fst == 1) && c >= 48 && c <= 57 && !(fst == 0 && c == 48), acc * 10 + (c - 48), acc)
+//@ fold fpv
+//@ init 0
+//@ step ite((fst == 2 || fst == 3) && c >= 48 && c <= 57, acc * 10 + (c - 48), acc)
+//@ fold fdot
+//@ init 0
+//@ step ite(acc == 1 || ((fst == 0 || fst == 1) && c == 46), 1, 0)
+//@ fold fsp
+//@ init 0
+//@ step ite(acc == 1 || (fst == 0 && c == 32), 1, 0)
+//@ fold fsh
+//@ init 0
+//@ step ite(acc == 1 || (fst == 0 && c == 35), 1, 0)
+//@ fold fpl
+//@ init 0
+//@ step ite(acc == 1 || (fst == 0 && c == 43), 1, 0)
+//@ fold fmi
+//@ init 0
+//@ step ite(acc == 1 || (fst == 0 && c == 45), 1, 0)
+//@ fold fze
+//@ init 0
+//@ step ite(fst == 0 && c == 45, 0, ite(fst == 0 && c == 48, ite(fmi == 1, 0, 1), acc))
+
+// once the verb has been read every further byte rejects
+//@ lemma fst_after_verb
+//@ forall a bytes, n int, m int
+//@ induct m from n
+//@ hyp 0 <= n && n <= m
+//@ holds fst(a, n) >= 4 && m > n ==> fst(a, m) == 5
+//@ props C07 C20
+
+//@ func parseFormat
+//@ define N = len(format)
+//@ define FLAGSOK = args.padSign == (fsp(format, i) == 1) && args.forceDP == (fsh(format, i) == 1) && args.printSign == (fpl(format, i) == 1) && args.padRight == (fmi(format, i) == 1) && args.padZero == (fze(format, i) == 1)
+//@ define FLAGSEND = args.padSign == (fsp(format, N) == 1) && args.forceDP == (fsh(format, N) == 1) && args.printSign == (fpl(format, N) == 1) && args.padRight == (fmi(format, N) == 1) && args.padZero == (fze(format, N) == 1)
+//@ ensures (fst(format, N) == 4) ==> args.verb == format[N - 1]
+//@ ensures (fst(format, N) != 4) ==> args.verb == 0
+//@ ensures fst(format, N) != 5 ==> FLAGSEND
+//@ ensures fst(format, N) != 5 && fwv(format, N) <= 999999 ==> args.wid == fwv(format, N)
+//@ ensures 0 <= args.wid && args.wid <= 999999 && 0 - 1 <= args.prec && args.prec <= 999999
+//@ ensures fst(format, N) != 5 ==> args.prec == ite(fdot(format, N) == 0, 0 - 1, ite(fpv(format, N) <= 999999, fpv(format, N), 0 - 1))
+//@ loop 1: invariant 0 <= i && i <= end && end == N && fst(format, i) == 0 && FLAGSOK && args.wid == 0 && args.prec == 0 - 1 && args.verb == 0 && fwv(format, i) == 0 && fpv(format, i) == 0 && fdot(format, i) == 0
+//@ loop 1: decreases end - i
+//@ loop 2: invariant 1 <= i && i <= end && end == N && fst(format, i) == 1 && FLAGSOK && args.prec == 0 - 1 && args.verb == 0 && fpv(format, i) == 0 && fdot(format, i) == 0
+//@ loop 2: invariant 0 <= args.wid && args.wid <= 999999 && (fwv(format, i) <= 999999 ==> args.wid == fwv(format, i)) && fwv(format, i) >= 0
+//@ loop 2: decreases end - i
+//@ loop 3: invariant 1 <= i && i <= end && end == N && fst(format, i) == 3 && FLAGSOK && args.verb == 0 && fdot(format, i) == 1 && 0 <= args.wid && args.wid <= 999999 && (fwv(format, i) <= 999999 ==> args.wid == fwv(format, i))
+//@ loop 3: invariant fpv(format, i) >= 0 && (fpv(format, i) <= 999999 ==> args.prec == fpv(format, i)) && (fpv(format, i) > 999999 ==> args.prec == 0 - 1) && 0 - 1 <= args.prec && args.prec <= 999999
+//@ loop 3: decreases end - i
+//@ apply before "if i != end-1 {": fst_after_verb(format, i + 1, N)
+//@ props C07 C20
